@@ -11,16 +11,6 @@ Record entry := mkEntry {
 Definition int32 (z : Z) : Prop := (- 2 ^ 31 <= z < 2 ^ 31)%Z.
 Definition int32b (z : Z) : bool := ((- 2 ^ 31 <=? z) && (z <? 2 ^ 31))%Z.
 
-Definition wf_entry (e : entry) : Prop :=
-  u64 (e_term e) /\ u64 (e_index e) /\ int32 (e_type e) /\ u64 (e_key e) /\
-  u64 (e_client e) /\ u64 (e_series e) /\ u64 (e_responded e) /\
-  wf_bytes (e_cmd e) /\ nlen (e_cmd e) <= colfer_size_max.
-
-Definition wf_entryb (e : entry) : bool :=
-  u64b (e_term e) && u64b (e_index e) && int32b (e_type e) && u64b (e_key e) &&
-  u64b (e_client e) && u64b (e_series e) && u64b (e_responded e) &&
-  wf_bytesb (e_cmd e) && (nlen (e_cmd e) <=? colfer_size_max).
-
 (* ---- encoder (marshalTo) ---- *)
 
 Definition field64 (tag x : N) : bytes :=
@@ -68,6 +58,46 @@ Definition size (e : entry) : N :=
 
 Definition size_upper_limit (e : entry) : N :=
   entry_non_cmd_fields_size + nlen (e_cmd e).
+
+(* fields in range and |Cmd| within the limit Size() checks first *)
+Definition wf_entry0 (e : entry) : Prop :=
+  u64 (e_term e) /\ u64 (e_index e) /\ int32 (e_type e) /\ u64 (e_key e) /\
+  u64 (e_client e) /\ u64 (e_series e) /\ u64 (e_responded e) /\
+  wf_bytes (e_cmd e) /\ nlen (e_cmd e) <= colfer_size_max.
+
+(* ... and the whole encoding strictly below ColferSizeMax: Size() panics above
+   the limit and unmarshal only accepts i < ColferSizeMax consumed bytes *)
+Definition wf_entry (e : entry) : Prop := wf_entry0 e /\ size e < colfer_size_max.
+
+Definition wf_entryb (e : entry) : bool :=
+  u64b (e_term e) && u64b (e_index e) && int32b (e_type e) && u64b (e_key e) &&
+  u64b (e_client e) && u64b (e_series e) && u64b (e_responded e) &&
+  wf_bytesb (e_cmd e) && (nlen (e_cmd e) <=? colfer_size_max) && (size e <? colfer_size_max).
+
+(* Size() as the Go code runs it: panic("max size reached") = None *)
+Definition size_checked (e : entry) : option N :=
+  if colfer_size_max <? nlen (e_cmd e) then None
+  else if colfer_size_max <? size e then None else Some (size e).
+
+(* The same computations as functions of the LENGTH of Cmd only, for entries too
+   large to be built as a list in the extracted model (the "BIG" harness cases);
+   Proofs/CodecEntry.v ties them to size / encode / decode. *)
+Definition size_cmd_len (n : N) : N := if n =? 0 then 0 else n + 2 + varint_extra 9 n.
+Definition size_len (e : entry) (n : N) : N :=
+  1 + size64 (e_term e) + size64 (e_index e) + size_type (e_type e) +
+  size64 (e_key e) + size64 (e_client e) + size64 (e_series e) +
+  size64 (e_responded e) + size_cmd_len n.
+Definition size_checked_len (e : entry) (n : N) : option N :=
+  if colfer_size_max <? n then None
+  else if colfer_size_max <? size_len e n then None else Some (size_len e n).
+(* everything marshalTo writes before the Cmd bytes (for n > 0) *)
+Definition encode_head (e : entry) (n : N) : bytes :=
+  field64 0 (e_term e) ++ field64 1 (e_index e) ++ field_type (e_type e) ++
+  field64 3 (e_key e) ++ field64 4 (e_client e) ++ field64 5 (e_series e) ++
+  field64 6 (e_responded e) ++ 7 :: uvarint n.
+(* outcome of unmarshal on the encoding: Some consumed = ok, None = ColferMax *)
+Definition decode_outcome_len (e : entry) (n : N) : option N :=
+  if size_len e n <? colfer_size_max then Some (size_len e n) else None.
 
 (* ---- decoder (unmarshal) ---- *)
 
@@ -192,9 +222,12 @@ Definition decode_from (total : N) (st0 : pst) : dec_result :=
       let '(h, rest) := st in
       let consumed := total - nlen rest in
       if h =? 127 then
-        DecOk (mkEntry (opt_or term 0) (opt_or index 0) (opt_or ty 0%Z)
-                       (opt_or key 0) (opt_or client 0) (opt_or series 0)
-                       (opt_or resp 0) cmd) consumed
+        (* if uint64(i) < ColferSizeMax { return i, nil }; otherwise ColferMax *)
+        if consumed <? colfer_size_max then
+          DecOk (mkEntry (opt_or term 0) (opt_or index 0) (opt_or ty 0%Z)
+                         (opt_or key 0) (opt_or client 0) (opt_or series 0)
+                         (opt_or resp 0) cmd) consumed
+        else DecMax
       else DecBadHeader (consumed - 1) in
     match dec_field_cmd st with
     | CmdEOF => DecEOF
